@@ -47,6 +47,11 @@ def scripts(rnd, quick):
     rnd.shuffle(sc)
     if quick:
         sc = sc[: 4000]
+    # block sizes that are multiples of 2^16 (a length kept in 16 bits would read them as "no payload")
+    for tr in (0, 1):
+        pl = [rnd.choice([END, ESC, 0, 1, rnd.randint(0, 255)]) for _ in range(65536)]
+        sc.append('emit 3 %d 0 7 0 16 65536 %s' % (tr, ' '.join(map(str, pl))))
+        sc.append('emit 4 %d 1 8 0 32 65536 %s' % (tr, ' '.join(map(str, pl + pl))))
     # the same emissions into a sink that refuses its k-th call, followed by a further request: what went out is a prefix of the
     # prescribed image and a sequence number that reached the wire is not used again
     sc += ['emitf %d %s' % (k, l[5:]) for l in sc[:300 if quick else 3000] for k in (1, 2, 3, 4, 6)]
